@@ -629,6 +629,64 @@ pub fn build_c17(quick: bool) -> Vec<Scenario> {
         .collect()
 }
 
+/// UDP: a recv_from whose datagram arrives in the instant of its deadline, then a recv on the same (connected) socket whose
+/// datagram arrives well within its own timeout: the second call must not report a timeout left over from the first
+fn udp_timeout_then_recv(e: &'static Engine, workers: usize, d_ns: u64) {
+    rt_init(workers);
+    let a = UdpSocket::bind("127.0.0.1:0").unwrap();
+    let addr = a.local_addr().unwrap();
+    let peer = std::net::UdpSocket::bind("127.0.0.1:0").unwrap();
+    let peer_addr = peer.local_addr().unwrap();
+    a.set_read_timeout(Some(Duration::from_nanos(d_ns))).unwrap();
+    static FIRST_DONE: AtomicBool = AtomicBool::new(false);
+    let results: Arc<Mutex<Vec<(bool, u64)>>> = Arc::new(Mutex::new(vec![]));
+    e.begin();
+    let r2 = results.clone();
+    let rd = go!(move || {
+        let mut buf = [0u8; 8];
+        let t0 = may::verif::now();
+        let r = a.recv_from(&mut buf);
+        let dt = may::verif::now() - t0;
+        match r {
+            Ok(_) => r2.lock().unwrap().push((true, dt)),
+            Err(err) if err.kind() == ErrorKind::TimedOut => r2.lock().unwrap().push((false, dt)),
+            Err(err) => e.fail("read_error", &format!("recv_from failed with {}", err)),
+        }
+        a.connect(peer_addr).unwrap();
+        FIRST_DONE.store(true, Ordering::SeqCst);
+        let t0 = may::verif::now();
+        let r = a.recv(&mut buf);
+        let dt = may::verif::now() - t0;
+        match r {
+            Ok(_) => r2.lock().unwrap().push((true, dt)),
+            Err(err) if err.kind() == ErrorKind::TimedOut => r2.lock().unwrap().push((false, dt)),
+            Err(err) => e.fail("read_error", &format!("recv failed with {}", err)),
+        }
+        a
+    });
+    let wr = e.spawn("peer", move || {
+        // the first datagram meets the deadline of the recv_from
+        e.vsleep(d_ns);
+        peer.send_to(&[1], addr).unwrap();
+        e.wait_flag(&FIRST_DONE);
+        // the second one comes a quarter of the timeout into the recv
+        e.vsleep(d_ns / 4);
+        peer.send_to(&[2], addr).unwrap();
+    });
+    let _a = rd.join().unwrap_or_else(|_| e.fail("unexpected_panic", "the receiver panicked"));
+    e.join(wr);
+    let res = results.lock().unwrap().clone();
+    for (i, (got, dt)) in res.iter().enumerate() {
+        if !*got && *dt < d_ns {
+            e.fail("timeout_early", &format!("operation {} with timeout {} ns failed with TimedOut after only {} ns", i, d_ns, dt));
+        }
+    }
+    if res.len() == 2 && !res[1].0 && !e.t2_used() {
+        e.fail("data_missed", "the recv reported TimedOut although a datagram arrived a quarter of the timeout into the call");
+    }
+    e.note(&format!("{:?}", res.iter().map(|r| r.0).collect::<Vec<_>>()));
+}
+
 pub fn build_c18(quick: bool) -> Vec<Scenario> {
     let mut v = vec![];
     let p = "C18";
@@ -646,6 +704,7 @@ pub fn build_c18(quick: bool) -> Vec<Scenario> {
         v.push(Scenario::new(p, "read_timeout", format!("tcp.read_timeout.2ms.data_at_1ms.w{}", w), Arc::new(move |e| read_timeout(e, w, 2 * MS, &[MS], 0, true))).t2());
         v.push(Scenario::new(p, "read_timeout", format!("tcp.read_timeout.1500000ns.never.w{}", w), Arc::new(move |e| read_timeout(e, w, 3 * MS / 2, &[0], 0, true))).t2());
         v.push(Scenario::new(p, "stale_timer", format!("tcp.read_timeout.2ms.read_meets_data_then_never.w{}", w), Arc::new(move |e| read_timeout(e, w, 2 * MS, &[MS / 2, 0], MS / 2, true))).t2().bound(2));
+        v.push(Scenario::new(p, "udp_timeout", format!("udp.recv_from_meets_deadline.then_recv.2ms.w{}", w), Arc::new(move |e| udp_timeout_then_recv(e, w, 2 * MS))).t2().bound(2));
         for what in [Blocked::Read, Blocked::Accept, Blocked::UdpRecv] {
             v.push(Scenario::new(p, "cancel_io", format!("cancel_io.{:?}.w{}", what, w).to_lowercase(), Arc::new(move |e| cancel_io(e, w, what))));
         }
